@@ -25,10 +25,12 @@ Streams (each enumerated completely for the tier's bound; availability is report
   own     small deviation-bounded templates of this module for the normalisers that the streams above would leave
           idle: imports (only-lists with used/unused/renamed/kind-only/type/procedure symbols, module- and
           member-level use), dead code (constant conditions in IF / ELSE IF / inline IF / SELECT CASE), sequence
-          association (element actuals to array dummies: rank 1/2, lower bound 0, loop subscripts, keywords)
-  upper   the own, c29 and c30 programs and mf modules of the *quick* bound spelled in upper case (so that
-          lower-casing has work to do)
-d = 1 / L,nest = 1,2 (quick);  d = 2 / L,nest = 2,2 (thorough).
+          association (element actuals to array dummies: rank 1/2, lower bound 0, loop subscripts, keywords), range
+          declarations (`a(1:n)`, `d(1:n,0:m)`, `z(0:n)`, locals with constant bounds: work for the range-index normalisers)
+  upper   every program of the *quick* bound spelled in upper case, judged with the two normalisers that fold case
+          themselves (convert_to_lower_case, sanitise_imports), so that lower-casing has work to do
+d = 1 / L,nest = 1,2 (quick);  d = 2 / L,nest = 2,2 (thorough).  A template stream whose d=2 expansion exceeds
+800 distinct programs is taken at d=1 in the thorough tier as well (reported per stream in the coverage).
 """
 import logging
 import re
@@ -139,6 +141,9 @@ NORMALISERS = {   # name -> (function, also applied to modules, statement headin
 }
 
 
+UPPER_NORMALISERS = ('convert_to_lower_case', 'sanitise_imports')   # the two that fold case themselves
+
+
 # ---------------------------------------------------------------------------- own templates
 IMP_PROVIDERS = '''module imod
   implicit none
@@ -226,6 +231,12 @@ DEAD_BLOCKS = {
     'select_var': ['select case (k)', 'case (1)', '  if (.true.) x = 1.0', 'case default', '  if (.false.) x = 2.0', 'end select'],
     'in_loop': ['do i = 1, 3', '  if (.true.) then', '    k = k + i', '  end if', '  if (i > 2) k = k + 1', 'end do'],
     'logical_var_named_true': ['if (true) then', '  x = x + 8.0', 'end if'],
+    # constant conditions nested inside a pruned branch: one pass must clean the branch it keeps
+    'const_in_true': ['if (.true.) then', '  if (.false.) then', '    x = 0.0', '  else', '    x = x + 16.0', '  end if', 'end if'],
+    'const_in_false_else': ['if (.false.) then', '  x = 0.0', 'else', '  if (.true.) x = x + 32.0', '  if (1 > 2) x = 0.0', 'end if'],
+    'const_in_elseif': ['if (k > 100) then', '  k = 0', 'else if (.true.) then', '  if (1 > 2) k = -1', '  k = k + 3', 'end if'],
+    'const_in_select_const': ['select case (1)', 'case (1)', '  if (.false.) k = 99', '  k = k + 4', 'case default', '  k = 0',
+                              'end select'],
 }
 
 
@@ -284,7 +295,34 @@ def seq_program(blocks):
     return [['smod.f90', SEQ_HEAD + '\n'.join(body) + '\n  end subroutine kern\nend module smod\n']]
 
 
-OWN = {'imports': (IMP_BLOCKS, imports_program), 'deadcode': (DEAD_BLOCKS, dead_program), 'seqassoc': (SEQ_BLOCKS, seq_program)}
+RNG_BLOCKS = {   # block -> (dummy/local declarations, body)
+    'base': (['real, intent(inout) :: a(1:n)'], ['a(1) = a(n) + 1.0', 'a(2:n) = 0.5']),
+    'rank2': (['real, intent(inout) :: c(1:n, 1:m)'], ['c(1, 1) = c(n, m)', 'c(:, 2) = 1.5']),
+    'mixed_bounds': (['real, intent(inout) :: d(1:n, 0:m)'], ['d(1, 0) = d(n, m)', 'd(2:n, 1) = d(2:n, 0)']),
+    'lower_0': (['real, intent(inout) :: z(0:n)'], ['z(0) = z(n) * 2.0', 'z(1:n) = z(0:n-1) + 1.0']),
+    'lower_neg': (['real, intent(inout) :: y(-1:n-2)'], ['y(-1) = y(n-2)', 'y(:) = y(:) + 0.25']),
+    'local_const': (['real :: w(1:4)'], ['w(:) = 1.0', 'w(1:2) = w(3:4)']),
+    'local_lower_2': (['real :: v(2:5)'], ['v(2) = 3.0', 'v(3:5) = v(2)']),
+    'plain': (['real, intent(inout) :: p(n)'], ['p(1:n) = 2.0']),
+    'strided': (['real, intent(inout) :: s(0:n)'], ['s(0:n:2) = 4.0']),
+    'in_call': (['real, intent(inout) :: q(0:n)'], ['call sub(n, q(0))', 'call sub(n, q(1:n))', 'call sub(n + 1, q)']),
+}
+
+
+def range_program(blocks):
+    lines = ['module rmod', '  implicit none', 'contains', '  subroutine sub(k, x)', '    integer, intent(in) :: k',
+             '    real, intent(inout) :: x(k)', '    x(k) = x(1)', '  end subroutine sub', '  subroutine kern(n, m, '
+             + ', '.join(RNG_BLOCKS[b][0][0].split('::')[1].split('(')[0].strip() for b in blocks
+                         if 'intent' in RNG_BLOCKS[b][0][0]) + ')', '    integer, intent(in) :: n, m']
+    for b in blocks:
+        lines += ['    ' + x for x in RNG_BLOCKS[b][0]]
+    for b in blocks:
+        lines += ['    ' + x for x in RNG_BLOCKS[b][1]]
+    lines += ['  end subroutine kern', 'end module rmod']
+    return [['rmod.f90', '\n'.join(lines) + '\n']]
+
+
+OWN = {'rangedecl': (RNG_BLOCKS, range_program), 'imports': (IMP_BLOCKS, imports_program), 'deadcode': (DEAD_BLOCKS, dead_program), 'seqassoc': (SEQ_BLOCKS, seq_program)}
 
 
 def own_programs(d):
@@ -314,30 +352,43 @@ def _import_stream_module(prefix):
     return mod
 
 
+STREAM_CAP = 800     # a template stream whose d=2 expansion has more distinct programs than this is taken at d=1 (stated in coverage)
+
+
+def _distinct(cases, sname):
+    seen = {}
+    for c in cases:
+        key = tuple(tuple(x) for x in c['sources']) + tuple(tuple(x) for x in c.get('extra', ()))
+        if key in seen:
+            continue
+        sw = c.get('switches', [])
+        sw = [f'{k}={v}' for k, v in sw.items()] if isinstance(sw, dict) else [str(x) for x in sw]
+        seen[key] = dict(stream=sname, pid=c['id'].split('|', 1)[0], sources=[list(x) for x in c.get('extra', ())] +
+                         [list(x) for x in c['sources']], switches=sw)
+    return list(seen.values())
+
+
 def template_programs(d):
     """distinct programs of the group-T template streams -> (list of program dicts, availability dict)"""
     out, avail = [], {}
     for sname, prefix in OPTIONAL_STREAMS.items():
         try:
             mod = _import_stream_module(prefix)
-            cases = mod.make_cases(d)
+            progs = _distinct(mod.make_cases(d), sname)
+            used_d = d
+            if d > 1 and len(progs) > STREAM_CAP:
+                full = len(progs)
+                progs = _distinct(mod.make_cases(1), sname)
+                used_d = 1
         except ImportError as ex:
             avail[sname] = f'unavailable ({ex})'
             continue
         except Exception as ex:  # pylint: disable=broad-except
             avail[sname] = f'unavailable (make_cases raised {type(ex).__name__}: {str(ex)[:120]})'
             continue
-        seen = {}
-        for c in cases:
-            key = tuple(tuple(x) for x in c['sources']) + tuple(tuple(x) for x in c.get('extra', ()))
-            if key in seen:
-                continue
-            sw = c.get('switches', [])
-            sw = [f'{k}={v}' for k, v in sw.items()] if isinstance(sw, dict) else [str(x) for x in sw]
-            seen[key] = dict(stream=sname, pid=c['id'].split('|', 1)[0], sources=[list(x) for x in c.get('extra', ())] +
-                             [list(x) for x in c['sources']], switches=sw)
-        out += list(seen.values())
-        avail[sname] = f'{len(seen)} programs'
+        out += progs
+        avail[sname] = f'{len(progs)} programs (<= {used_d} switches' + (
+            f'; the {full} programs of d={d} exceed the cap of {STREAM_CAP})' if used_d != d else ')')
     return out, avail
 
 
@@ -515,7 +566,7 @@ def run(ctx):
     upper = [upper_variant(p) for p in up_src]
     avail['upper'] = f'{len(upper)} programs'
     progs = own + tprogs + mfp + upper
-    items = [(p, t) for p in progs for t in NORMALISERS]
+    items = [(p, t) for p in own + tprogs + mfp for t in NORMALISERS] + [(p, t) for p in upper for t in UPPER_NORMALISERS]
     order = seeded_order(list(range(len(items))), ctx.seed)
     res = ctx.pmap(worker, [items[i] for i in order], chunksize=4)
     results = [None] * len(items)
